@@ -262,12 +262,20 @@ func (e *EvalBinaryNode) eval(scope *Scope, executionState ExecutionState) (resu
 	if err != nil {
 		if typeGuardErr, isTypeGuardError := err.error.(ErrTypeGuardFailed); isTypeGuardError {
 			// Fix the type info, thanks to the type guard info
-			if err.IsLeft {
+			changed := false
+			if err.IsLeft && e.leftType != typeGuardErr.ActualType {
 				e.leftType = typeGuardErr.ActualType
+				changed = true
 			}
 
-			if err.IsRight {
+			if err.IsRight && e.rightType != typeGuardErr.ActualType {
 				e.rightType = typeGuardErr.ActualType
+				changed = true
+			}
+			if !changed {
+				// The operand cannot be evaluated as the type it reports (a unary minus on a string, say):
+				// trying again with the same types would never end.
+				return boolFalseResultContainer, err
 			}
 
 			// redefine the evaluation fn
